@@ -474,7 +474,9 @@ impl Context {
             let kvs = m
                 .iter()
                 .map(|(k, v)| {
-                    let k = self.lit_into_ty(k, k_ty)?.0;
+                    // a key may be a map itself (a BTreeMap, which is Ord): its literal is lowered
+                    // by the map arms above, like the value's
+                    let k = self.lit_as_rvalue(k, k_ty)?.0;
                     let v = self.lit_as_rvalue(v, v_ty)?.0;
                     anyhow::Ok(format!("map.insert({k}, {v});"))
                 })
